@@ -10,6 +10,8 @@ from ..rules import (decide_states, subscript_bounds_obligations, pure_params, M
 ID = "C01"
 ANCHORS = 'ersatz.substitute,ersatz.insert,ersatz.delete,ersatz.multisubstitute,ersatz.randomize'.split(",")
 MIN_INSTANCES = 20
+# rule families whose findings in this module are derived by an engine (not by comparing spellings): exempt from the rewrite gate
+SEMANTIC_RULES = {"R-ACCEPT", "MUST-VALIDATE", "R-PURE", "R-GUARD"}
 EXPLANATION = (
     "Static rules over tangermeme/ersatz.py (ast; nothing executed). R-GUARD: trace-partitioned abstract "
     "interpretation collects the linear guards on every path to each last-axis slice of an X-shaped tensor in "
